@@ -54,6 +54,14 @@ delta parameters, a final job's returned value never changes and costs no reques
 ALL operations under the shipped refresh delay with a scripted clock (`kstep`), compared step by step and judged
 directly (create once, no poll after final, streak law over the requests that reached the server, an overdue
 status-dependent call reaches the server).
+
+Third extension (`Model/C17Y.lean`): `check_clocked_results` = histories of the whole object under the shipped delay with
+a scripted clock (`ystep`): the base operations, get_results on the CONTENT of the answer with its two status reads at
+their own times, `reopen` (= continue with `RemoteJob._from_dict(job._to_dict())`), optionally starting with
+`RemoteJob.from_id` at a given time (`resumeAt`).  Compared step by step; judged directly: create once, no poll after
+final, streak law (also on from_id's read), overdue call reaches the server, from_id at a real clock sends exactly one
+status request, results refused when the first read reached the server and said unfinished, failure message, mapping
+expectation, cached value stable, re-creation sends nothing and keeps the shown status.
 """
 from __future__ import annotations
 
@@ -2206,9 +2214,11 @@ class ByRead(list):
         super().__init__(answers)
         self.clock = clock
         self.req_times = []
+        self.positions = []      # 0 = the first status read of the operation, 1 = the second
 
     def pop(self, _i=0):
         self.req_times.append(self.clock.last)
+        self.positions.append(max(self.clock.count - 1, 0))
         return self[min(max(self.clock.count - 1, 0), len(self) - 1)]
 
 
@@ -2347,6 +2357,337 @@ def check_clocked_ops(chk, world, n):
 
 
 # ------------------------------------------------------------------------------------------------
+# results on the content of the answer UNDER the real throttle, re-creation from the dictionary / from the id under
+# the real clock (Model/C17Y.lean: `ystep`, `resumeAt`), shipped delay, scripted clock
+# ------------------------------------------------------------------------------------------------
+TRUTHLESS = ("val:null", "val:num:0", "val:str:", "val:list:0", "val:dict:-:-:absent:0")
+
+
+def run_yops(world, hist):
+    """-> (outs, hits, tags); hist = {"resume": [id, now, answer] or None, "yops": [[now1, now2, op], ...]} with
+    op = a base operation (x/p/c/r), ["G", r1, r2, results body] or ["reopen"]; times in quarter seconds, delay 1 s"""
+    install_mapping_module()
+    RJ = world.RemoteJob
+    saved_time, saved_delay = world.rjm.time, RJ.STATUS_REFRESH_DELAY
+    clock = SeqClock()
+    outs, hits, tags = [], [], set()
+    try:
+        world.rjm.time = clock
+        RJ.STATUS_REFRESH_DELAY = 1
+        k0 = 1
+        final, fails, creates, last_req, prev = None, 0, 0, 0, "not sent"
+        failmsg, cached, stored, odd = None, None, False, False
+        old_last_req = None      # last status request of the object the current one was re-created from
+        if hist.get("resume") is not None:
+            n, now, r = hist["resume"]
+            clock.set(now / 4.0)
+            world.begin(1, [r], None)
+            world.status_q = q = ByRead(world.status_q, clock)
+            job = None
+            try:
+                job = RJ.from_id(f"job-{n}", world.handler)
+                res = f"new:{cid(job)}:{shown(job)}"
+            except Exception as e:  # noqa: BLE001
+                res = exc_str(world, e, "p")
+            calls, served = list(world.calls), list(world.served)
+            outs.append(f"{res}|{','.join(calls)}")
+            if now > DELAY_Q:
+                tags.add("Y-resume-sent")
+                if calls != [f"S{n}"]:
+                    hits.append(("stopped-polling-before-final", 1,
+                                 f"step 1: RemoteJob.from_id at t={now / 4.0}s (refresh delay 1s) sent "
+                                 f"{','.join(calls) or 'no request'} instead of exactly one status request"))
+                elif served and served[0][0] == "s" and served[0][1] in CANON and job is not None and \
+                        shown(job) != MEANING[served[0][1]]:
+                    hits.append(("status-not-last-read", 1,
+                                 f"step 1: from_id was told {served[0][1]!r} and shows {shown(job)}"))
+            else:
+                tags.add("Y-resume-throttled")
+            if served and served[0][0] != "s":       # the streak law on the one read of a fresh object
+                r0 = served[0]
+                fatal = r0[0] == "h" and r0[1] not in TRANSIENT
+                want = "exc:ConnectionError" if r0[0] == "c" else f"exc:HTTPError:{r0[1]}"
+                if fatal and res != want:
+                    hits.append(("fatal-http-absorbed", 1,
+                                 f"step 1: from_id got {r0} for its status request and did not raise it (result {res})"))
+                elif not fatal and job is None:
+                    hits.append(("transient-not-absorbed", 1,
+                                 f"step 1: from_id raised the first transient failure {r0} ({res})"))
+            if job is None:
+                tags.add("Y-resume-raised")
+                return outs, hits, tags
+            for r2 in served:
+                if r2[0] == "s" and r2[1] in ("error", "canceled"):
+                    failmsg = "m1"
+                elif r2[0] == "s" and r2[1] not in CANON:
+                    odd = True
+                fails = 0 if r2[0] == "s" else 1
+            creates, prev, k0 = 1, shown(job), 2
+            last_req = now
+            if prev in FINAL_NAMES:
+                final = prev
+        else:
+            job = RJ({"payload": {}}, world.handler, "verif")
+        for k, (n1, n2, op) in enumerate(hist["yops"], k0):
+            kind = op[0]
+            if kind == "reopen":
+                world.begin(k, [], None)
+                try:
+                    job = RJ._from_dict(job._to_dict(), world.handler)
+                    res = "ok"
+                except Exception as e:  # noqa: BLE001
+                    res = exc_str(world, e, "p")
+                calls = list(world.calls)
+                if calls:
+                    hits.append(("reopen-sends-requests", k, f"step {k}: _from_dict(_to_dict()) sent {','.join(calls)}"))
+                sh = shown(job)
+                tags.add("Y-reopen-unsent" if sh == "not sent" else
+                         ("Y-reopen-final" if sh in FINAL_NAMES else "Y-reopen-sent"))
+                if res == "ok" and prev != "not sent" and sh != prev:
+                    hits.append(("reopen-changes-status", k,
+                                 f"step {k}: the job showed {prev}, its re-creation from the dictionary shows {sh}"))
+                # a new object: fresh counters; "overdue" is judged from its creation on (the code is stricter: it
+                # starts with _previous_status_refresh = 0, compared through the model)
+                old_last_req = last_req
+                fails, creates, last_req = 0, (0 if sh == "not sent" else 1), n1
+                failmsg, cached, stored = None, None, False
+                prev = sh
+                outs.append(f"{res}|{cid(job)}|{sh}|{','.join(calls)}")
+                continue
+            clock.set(n1 / 4.0, n2 / 4.0)
+            box = {}
+
+            def by_read():
+                world.status_q = box["q"] = ByRead(world.status_q, clock)
+            res, new_job = do_op(world, job, k, op, by_read)
+            calls, served = list(world.calls), list(world.served)
+            ns = sum(1 for c in calls if c[0] == "S")
+            req_times = [int(round(x * 4)) for x in box["q"].req_times]
+            positions = list(box["q"].positions)
+            creates += calls.count("C")
+            if creates > 1:
+                hits.append(("sent-twice", k, f"step {k}: create_job called again for a job object already submitted"))
+            if final is not None and ns:
+                hits.append(("polls-after-final", k, f"step {k}: status request sent after the job showed {final}"))
+            sent_before = prev != "not sent"
+            if sent_before and final is None and kind != "x":
+                if n1 - last_req > DELAY_Q:
+                    if ns == 0:
+                        hits.append(("stopped-polling-before-final", k,
+                                     f"step {k}: {OP_NAME[kind.lower()]} at t={n1 / 4.0}s, {(n1 - last_req) / 4.0}s "
+                                     f"after the last status request (refresh delay 1s) on a job showing {prev} (not "
+                                     f"final) sent no status request (result {res})"))
+                if old_last_req is not None and ns and n1 - old_last_req <= DELAY_Q:
+                    tags.add("Y-reopen-then-read-inside-delay")
+            if kind != "x":
+                old_last_req = None
+            for i, r in enumerate(served):
+                if r[0] == "s":
+                    fails = 0
+                    if r[1] in ("error", "canceled"):
+                        failmsg = f"m{k}"
+                    elif r[1] not in CANON:
+                        odd = True
+                else:
+                    fails += 1
+                    fatal = r[0] == "h" and r[1] not in TRANSIENT
+                    must = fails > MAX_ABSORBED or fatal
+                    want = "exc:ConnectionError" if r[0] == "c" else f"exc:HTTPError:{r[1]}"
+                    last = i == len(served) - 1 and calls[-1][0] == "S"
+                    if must and not (last and res == want):
+                        hits.append(("fatal-http-absorbed" if fatal and fails <= MAX_ABSORBED
+                                     else "streak-absorbed-after-max", k,
+                                     f"step {k}: failed status request number {fails} of the streak ({r}) was not "
+                                     f"raised (result {res})"))
+                    elif not must and last and res == want:
+                        hits.append(("transient-not-absorbed", k,
+                                     f"step {k}: transient failure number {fails} was raised ({res})"))
+            if kind == "G":
+                asked = any(c[0] == "G" for c in calls)
+                guard = served[0][1] if served and served[0][0] == "s" and positions and positions[0] == 0 else None
+                if ns:
+                    tags.add("Y-results-read-sent")
+                if 1 in positions:
+                    tags.add("Y-results-second-read-sent")
+                if guard in UNFINISHED:
+                    tags.add("Y-refused")
+                    if res != "exc:RuntimeError:running" or asked:
+                        hits.append(("results-while-unfinished", k,
+                                     f"step {k}: get_results() at t={n1 / 4.0}s while the server says {guard!r}: "
+                                     f"result {res}, requests {','.join(calls)} (must be refused without a results "
+                                     f"request)"))
+                if ns == 0 and final is None and sent_before:
+                    tags.add("Y-throttled-refused" if res == "exc:RuntimeError:running" else
+                             ("Y-throttled-fetch" if asked else "Y-throttled-other"))
+                if res.startswith("exc:RuntimeError:failed:") and failmsg is not None and not odd and \
+                        res != "exc:RuntimeError:failed:" + failmsg:
+                    hits.append(("failed-message-lost", k,
+                                 f"step {k}: the server's failure message was {failmsg!r} but get_results() raised "
+                                 f"{res}"))
+                if cached is not None:
+                    tags.add("Y-cached-return")
+                    if res != cached or calls:
+                        hits.append(("cached-results-changed", k,
+                                     f"step {k}: the finished job had returned {cached} before; get_results() at "
+                                     f"t={n1 / 4.0}s now gives {res} with requests {','.join(calls) or 'none'}"))
+                elif final is not None and not stored and asked and op[3][0] == "p":
+                    want = expected_mapping(op[3][1])
+                    if want is not None:
+                        tags.add("Y-mapped")
+                        if res != "val:" + want:
+                            hits.append(("result-mapping-wrong", k,
+                                         f"step {k}: the answer asks for the mapping of every entry (delta parameters "
+                                         f"{op[3][1][3][2]}); expected {want}, get_results() returned {res}"))
+                if asked and op[3][0] == "p":
+                    stored = True
+                if res.startswith("val:") and shown(job) in FINAL_NAMES and res not in TRUTHLESS:
+                    cached = res
+            if req_times:
+                last_req = req_times[-1]
+            if new_job is not None and op[4]:
+                job, final, fails, creates, last_req = new_job, None, 0, 1, n2
+                failmsg, cached, stored, odd = None, None, False, False
+                tags.add("Y-child")
+            sh = shown(job)
+            if final is not None and sh != final:
+                hits.append(("final-status-changed", k, f"step {k}: status shown went from {final} to {sh}"))
+            if sh in FINAL_NAMES:
+                final = sh
+            prev = sh
+            outs.append(f"{res}|{cid(job)}|{sh}|{','.join(calls)}")
+    finally:
+        world.rjm.time = saved_time
+        RJ.STATUS_REFRESH_DELAY = saved_delay
+    return outs, hits, tags
+
+
+def gen_yops(rng):
+    resume = None
+    yops = []
+    t = rng.choice([0, 2, 5, 9])
+    if rng.random() < 0.25:
+        now = rng.choice([0, 2, 4, 5, 9, 40])
+        resume = [50 + rng.randint(0, 9), now, rand_status_answer(rng, False)]
+        t = now
+    else:
+        z = rng.random()
+        if z < 0.86:
+            yops.append([t, t, ["x", OK]])
+        elif z < 0.94:
+            yops.append([t, t, ["x", rng.choice([H(500), H(429), CONN])]])     # creation fails: an unsent ERROR job
+            yops.append([t, t, ["reopen"]])
+        else:
+            yops.append([t, t, ["reopen"]])                                    # a job never submitted
+    fail_bias = rng.random() < 0.2
+    for i in range(rng.randint(2, 12)):
+        t += rng.choice([0, 1, 3, 4, 5, 5, 6, 12])
+        t2 = t + rng.choice([0, 0, 0, 1, 5, 8])
+        x = rng.random()
+        if i == 0 and x < 0.6:
+            op = ["p", 0, S(rng.choice(["completed", "error", "canceled", "unknown", "running", "error"]))]
+        elif x < 0.4:
+            fb = fail_bias and rng.random() < 0.6
+            op = ["G", rand_status_answer(rng, fb), rand_status_answer(rng, fb), rand_rbody(rng)]
+        elif x < 0.5 and resume is None:
+            op = ["reopen"]
+            t2 = t
+        else:
+            op = rand_op(rng, fail_bias and rng.random() < 0.8)
+            if op[0] == "g":
+                op = ["G", op[1], op[2], rand_rbody(rng)]
+            if resume is not None and op[0] in ("r", "x"):
+                op = ["p", 0, op[1] if op[0] == "r" else S("running")]
+        yops.append([t, t2, op])
+        t = t2
+    return {"resume": resume, "yops": yops}
+
+
+def judge_yops(chk, world, hist, lean_outs=None):
+    outs, hits, tags = run_yops(world, hist)
+    if lean_outs is None:
+        req = {"fixed": True, "delay": DELAY_Q, "yops": hist["yops"]}
+        if hist.get("resume") is not None:
+            req["resume"] = hist["resume"]
+        rep = chk.lean.ask(req)
+        if "err" in rep:
+            return ("broken", "driver-rejects", f"Lean driver rejected the history: {rep['err']}", {"yhist": hist}), tags
+        lean_outs = rep["outs"]
+    if hits:
+        sig, k, what = hits[0]
+        return ("violation", sig, what, {"yhist": hist, "real": outs, "model": lean_outs}), tags
+    if len(outs) != len(lean_outs):
+        return ("broken", "clocked-results-model-vs-code",
+                f"real code made {len(outs)} steps, the model {len(lean_outs)}",
+                {"yhist": hist, "real": outs, "model": lean_outs}), tags
+    i = next((i for i, (x, y) in enumerate(zip(outs, lean_outs)) if x != y), None)
+    if i is not None:
+        return ("broken", "clocked-results-model-vs-code",
+                f"step {i + 1}: real code gives {outs[i]!r}, the combined results/throttle model gives "
+                f"{lean_outs[i]!r}; no direct oracle fails", {"yhist": hist, "real": outs, "model": lean_outs}), tags
+    return None, tags
+
+
+def shrink_yhist(chk, world, hist, sig, budget=200):
+    cur = hist
+    changed = True
+    while changed and budget > 0:
+        changed = False
+        for i in range(len(cur["yops"])):
+            cand = {"resume": cur.get("resume"), "yops": cur["yops"][:i] + cur["yops"][i + 1:]}
+            if not cand["yops"] and cand["resume"] is None:
+                continue
+            budget -= 1
+            r, _ = judge_yops(chk, world, cand)
+            if r is not None and r[1] == sig:
+                cur, changed = cand, True
+                break
+    return cur
+
+
+def report_yhist(chk, world, r):
+    kind, sig, what, rep = r
+    seen = chk.extra.setdefault("_reported", set())
+    if (kind, sig) in seen:
+        return
+    seen.add((kind, sig))
+    small = shrink_yhist(chk, world, rep["yhist"], sig)
+    r2, _ = judge_yops(chk, world, small)
+    if r2 is not None and r2[1] == sig:
+        kind, sig, what, rep = r2
+    chk.fail(kind, sig, what, rep)
+
+
+Y_BRANCHES = ["Y-resume-sent", "Y-resume-throttled", "Y-resume-raised", "Y-reopen-sent", "Y-reopen-unsent",
+              "Y-reopen-final", "Y-reopen-then-read-inside-delay", "Y-results-read-sent", "Y-results-second-read-sent",
+              "Y-refused", "Y-throttled-refused", "Y-throttled-fetch", "Y-cached-return", "Y-mapped", "Y-child"]
+
+
+def check_clocked_results(chk, world, n):
+    corpus = load_corpus("yhist")
+    hists = corpus + [gen_yops(chk.rng) for _ in range(n)]
+    reqs = []
+    for h in hists:
+        req = {"fixed": True, "delay": DELAY_Q, "yops": h["yops"]}
+        if h.get("resume") is not None:
+            req["resume"] = h["resume"]
+        reqs.append(req)
+    reps = chk.lean.ask_many(reqs)
+    for h, rep in zip(hists, reps):
+        chk.evaluations += 1
+        chk.count("source", "clocked-results")
+        if "err" in rep:
+            chk.fail("broken", "driver-rejects", rep["err"], {"yhist": h})
+            continue
+        r, tags = judge_yops(chk, world, h, rep["outs"])
+        for t in tags:
+            chk.branch(t)
+        chk.case(json.dumps(h, sort_keys=True), any(k[2][0] in ("G", "reopen") for k in h["yops"]),
+                 {"source": "clocked-results", "len": len(h["yops"]), "resume": h.get("resume"), "ops": h["yops"][:3]})
+        if r is not None:
+            report_yhist(chk, world, r)
+
+
+# ------------------------------------------------------------------------------------------------
 def load_corpus(key="ops"):
     out = []
     for p in sorted(glob.glob(os.path.join(core.VERIF, "corpus", "C17", "*.json"))):
@@ -2370,7 +2711,9 @@ def setup(chk):
         "progress fields of the status body are not compared (main machine); the results machine (part 9) feeds "
         "get_results with the content shapes of Model/C17R.lean and a mapping function injected into sys.modules that "
         "records its arguments; the clocked-operations part (10) serves the status answers by the position of the read "
-        "within the operation (first read r1, second r2), as the model assigns them",
+        "within the operation (first read r1, second r2), as the model assigns them; part 11 (whole object under the "
+        "clock) does the same, re-creates jobs only when they carry request data (constructor-made jobs and their "
+        "children), and starts a quarter of its histories with from_id at a scripted time",
         "job ids, status messages and result tokens are the position of the step in the history on both sides "
         "(freshness of a rerun id is the server's business)",
         "full machine: times are integers, progress a multiple of 1/4; the JobStatus of a sent job is read through the "
@@ -2405,7 +2748,9 @@ def setup(chk):
         "sync-accepted", "sync-refused", "sync-raised", "sync-absorbed", "sync-pending", "sync-returned",
         "sync-job-failed", "sync-clock-spaced", "sync-clock-throttled",
         # the results machine and the clocked operations (Model/C17R.lean)
-        *R_BRANCHES, *K_BRANCHES]
+        *R_BRANCHES, *K_BRANCHES,
+        # results under the throttle, re-creation under the clock (Model/C17Y.lean)
+        *Y_BRANCHES]
     return World()
 
 
@@ -2503,6 +2848,9 @@ def run(chk: core.Check):
     # 10. every operation under the real throttle
     check_clocked_ops(chk, world, chk.pick(1200, 10000))
     lap("clocked-ops")
+    # 11. results on the content of the answer under the real throttle; _from_dict(_to_dict()) / from_id under the clock
+    check_clocked_results(chk, world, chk.pick(2000, 12000))
+    lap("clocked-results")
     chk.extra["distinct_nontrivial"] = len(chk.sigs) + nontriv
     chk.extra["distinct_histories"] = len(chk.sigs) + distinct
     chk.extra["section_seconds"] = tsec
@@ -2519,6 +2867,13 @@ def replay(chk, data):
         chk.evaluations += 1
         if r is not None:
             report_list(chk, lambda ops: judge_rops(chk, world, ops), r, "rops")
+        chk.extra.pop("_reported", None)
+        return
+    if "yhist" in rep:
+        r, _ = judge_yops(chk, world, rep["yhist"])
+        chk.evaluations += 1
+        if r is not None:
+            report_yhist(chk, world, r)
         chk.extra.pop("_reported", None)
         return
     if "kops" in rep:
